@@ -166,7 +166,9 @@ func (p *parser) parseBinaryExpr(left Node) Node {
 	if expType == EMPTY_ARRAY {
 		binaryExp.T = binaryExp.Right.Type() // array concatenation e.g. [] + [1 2]
 	}
-	p.validateBinaryType(binaryExp)
+	if !p.validateBinaryType(binaryExp) {
+		return nil // previous error: do not hand an ill-typed node to later checks
+	}
 	if p.isWSS() {
 		p.formatting.recordWSS(binaryExp)
 	}
@@ -359,12 +361,12 @@ func (p *parser) validateUnaryType(unaryExp *UnaryExpression) bool {
 	return true
 }
 
-func (p *parser) validateBinaryType(binaryExp *BinaryExpression) {
+func (p *parser) validateBinaryType(binaryExp *BinaryExpression) bool {
 	tok := binaryExp.Token()
 	op := binaryExp.Op
 	if op == OP_ILLEGAL || op == OP_BANG {
 		p.appendErrorForToken("invalid binary operator", tok)
-		return
+		return false
 	}
 
 	leftType := binaryExp.Left.Type()
@@ -372,9 +374,10 @@ func (p *parser) validateBinaryType(binaryExp *BinaryExpression) {
 	if !(leftType.matches(rightType) || (leftType.Name == ARRAY && op == OP_ASTERISK)) {
 		msg := fmt.Sprintf("mismatched type for %s: %s, %s", op, leftType, rightType)
 		p.appendErrorForToken(msg, tok)
-		return
+		return false
 	}
 
+	nerr := len(p.errors)
 	switch op {
 	case OP_PLUS:
 		if leftType != NUM_TYPE && leftType != STRING_TYPE && leftType.Name != ARRAY {
@@ -404,6 +407,7 @@ func (p *parser) validateBinaryType(binaryExp *BinaryExpression) {
 			p.appendErrorForToken(msg, tok)
 		}
 	}
+	return len(p.errors) == nerr
 }
 
 func (p *parser) parseLiteral() Node {
